@@ -863,6 +863,46 @@ fn c08_trailing_comments(g: &Arc<Grammar>, d: usize, cfgs: &[Cfg]) -> Box<dyn Fa
         }),
     )
 }
+/// a disabled region from every statement-level position up to a closing toggle that is the last token of the
+/// file, followed by nothing, blank lines, blanks: formatting is on again at the end of the file
+fn c08_toggle_at_eof(g: &Arc<Grammar>, d: usize, cfgs: &[Cfg]) -> Box<dyn Family> {
+    pf(
+        "c08eof:region-closed-by-the-last-token",
+        g,
+        d,
+        cfgs,
+        Box::new(move |_g, toks, c, ctx| {
+            use crate::grammar::{M_B, M_C, M_D, M_K, M_O, M_S};
+            let l1 = crate::layout::base_gaps(toks, crate::layout::Base::L1);
+            let n = toks.len();
+            let mut first = true;
+            for i in 0..=n {
+                if i < n && toks[i].marks & (M_S | M_K | M_B | M_O | M_C | M_D) == 0 {
+                    continue;
+                }
+                let mut x = String::new();
+                for k in 0..n {
+                    if k == i {
+                        x.push_str("\n// pasfmt off\n");
+                    } else if k > 0 {
+                        x.push_str(&l1[k]);
+                    }
+                    x.push_str(&toks[k].text);
+                }
+                if i == n {
+                    x.push_str("\n{pasfmt off}");
+                }
+                for (on, tail) in [("\n// pasfmt on", ""), ("\n// pasfmt on", "\n\n\n"), (" {pasfmt on}", "  "), ("\n(* pasfmt on *)", "\n  \n"), ("\n// pasfmt on", "\n")] {
+                    if !first {
+                        ctx.sub_eval();
+                    }
+                    first = false;
+                    f_c08_eof(&format!("{x}{on}{tail}"), c, ctx);
+                }
+            }
+        }),
+    )
+}
 fn f_c08_eof(x: &str, c: &Cfg, ctx: &mut Ctx) {
     let out = ctx.fmt(c, x);
     o::c08(x, &out, c, &o::C08Opts { eof_clause: true }, ctx);
@@ -1605,6 +1645,7 @@ pub fn families(check: &str, tier: &str) -> Vec<Box<dyn Family>> {
                     prog_variants("c08eof", &g(2), 2, &C_QUICK, vo_base, f_c08_eof),
                     prog_variants("c08eof", &g(1), 1, &C_QUICK[..3], vo_cd, f_c08_eof),
                     c08_trailing_comments(&g(2), 2, &C_QUICK[..2]),
+                    c08_toggle_at_eof(&g(1), 1, &C_QUICK[..3]),
                     seed_texts("c08eof", &wf_seeds(), &C_QUICK, f_c08_eof),
                     tf("c08", lit_texts(2), &C_QUICK[..3], or_c08(false)),
                     tf("c08", soup(2, GAPS8, &["%", "begin % end"]), &C_QUICK[..3], or_c08(false)),
@@ -1620,6 +1661,8 @@ pub fn families(check: &str, tier: &str) -> Vec<Box<dyn Family>> {
                     tf("c08", Chars { n: 4 }, &C_QUICK[..2], or_c08(false)),
                     prog_variants("c08eof", &g(2), 2, &full, vo_all, f_c08_eof),
                     prog_variants("c08eof", &g(3), 3, &C_QUICK[..2], vo_base, f_c08_eof),
+                    c08_trailing_comments(&g(2), 2, &C_QUICK),
+                    c08_toggle_at_eof(&g(2), 2, &C_QUICK[..3]),
                     seed_texts("c08eof", &wf_seeds(), &full, f_c08_eof),
                     tf("c08", lit_texts(2), &C_QUICK, or_c08(false)),
                     tf("c08", soup(2, GAPS8, CONTEXTS), &C_QUICK, or_c08(false)),
